@@ -407,6 +407,10 @@ class MsgClient(Client):
             ok.res[n["_id"]] = "Z"
             bad.res[n["_id"]] = "NZ"
             return [ok, bad]
+        if n.get("fn") == "nni_msgq_tryput":
+            # a non-blocking put into a queue that may be full or closed, with the answer thrown away: both outcomes
+            # are possible, and on the refused one the message is still the caller's
+            return [ok, bad]
         return ok
 
     def call(self, st, n, sim):
